@@ -2,7 +2,7 @@
 Layer 1: compositionality (differential).  Layer 2: spelling equivalence (metamorphic).  Layer 3: reference renderer."""
 import itertools, re
 from vp import core, mmd, pmap
-from vp.blocks import BLOCKS, MMD_ONLY, INDENTED, LISTS
+from vp.blocks import BLOCKS, MMD_ONLY, INDENTED, LISTS, TABLES, DEFLISTS
 
 MODES = [("mmd", mmd.EXT_DEFAULT), ("mmd-nosmart", mmd.EXT_DEFAULT & ~mmd.EXT["SMART"]), ("compat", mmd.EXT_COMPAT), ("compat-smart", mmd.EXT_COMPAT | mmd.EXT["SMART"])]
 
@@ -19,6 +19,7 @@ def comp_case(L):
         seq = seq[::-1]; mname, ext = MODES[mi]
         if mname.startswith("compat") and any(i in MMD_ONLY for i in seq): return (None, [], dict(skipped=1))
         if any(a in INDENTED and b in INDENTED for a, b in zip(seq, seq[1:])): return (None, [], dict(skipped=1))   # two indented blocks are one block by definition
+        if any((a in TABLES and b in TABLES) or (a in DEFLISTS and (b in DEFLISTS or b in INDENTED)) for a, b in zip(seq, seq[1:])): return (None, [], dict(skipped=1))   # one block by definition
         doc = b"".join(BLOCKS[i] for i in seq)
         whole = html(doc, ext).rstrip(b"\n")
         parts = b"\n\n".join(html(BLOCKS[i], ext).rstrip(b"\n") for i in seq)
